@@ -16,3 +16,14 @@ package zrpc
 //@   trusted
 //@   modifies discovRegs
 //@   allocates
+
+// C04 zRPC server: whenever a timeout is configured the timeout interceptor is installed - whatever the other switches
+// (shedding, breaker, statistics) are - with exactly the configured duration and the per-method table
+//@ func setupUnaryInterceptors
+//@   property C04
+//@   ghost at entry: tmo = false
+//@   ghost at after UnaryTimeoutInterceptor#0: tmo = true
+//@   ghost at after UnaryTimeoutInterceptor#0: ti = ret
+//@   call UnaryTimeoutInterceptor#0: assert arg_timeout == time.Duration(c.Timeout)*time.Millisecond && sameSlice(arg_methodTimeouts, c.MethodTimeouts)
+//@   call AddUnaryInterceptors#6: assert tmo && raw0 == ti
+//@   ensures_local implies(c.Timeout > 0, tmo)
